@@ -17,12 +17,16 @@ theorem pipeline_per_line (fl : Flags) (lower nfkc : List Nat → List Nat) (rul
     (isSpace : Nat → Bool) (lines : List (List Nat)) :
     processUnicode fl lower nfkc rules isSpace lines =
       lines.map (PV.Spec.Flatten.transform fl.lower fl.flatten fl.normalize lower (apply rules isSpace) nfkc) := by
-  sorry
+  unfold processUnicode
+  exact PV.Lemmas.Flatten.mainLoop_eq fl lower nfkc rules isSpace lines _
 
 /-- with no flag, text passes through unchanged. -/
 theorem no_flag_identity (lower nfkc : List Nat → List Nat) (rules : List Start) (isSpace : Nat → Bool)
     (lines : List (List Nat)) : processUnicode ⟨false, false, false⟩ lower nfkc rules isSpace lines = lines := by
-  sorry
+  rw [pipeline_per_line]
+  induction lines with
+  | nil => rfl
+  | cons l ls ih => rw [List.map_cons, ih]; rfl
 
 /-- Flatten::Apply on the UTF-16 text of any sequence of scalar values equals the code-point
     level specification: leftmost, multi-character alternatives before the single-character one,
@@ -30,17 +34,23 @@ theorem no_flag_identity (lower nfkc : List Nat → List Nat) (rules : List Star
 theorem apply_eq_spec (rules : List Start) (hb : PV.Spec.Flatten.bmpOnly rules = true) (isSpace : Nat → Bool)
     (cps : List Nat) (hs : ∀ c ∈ cps, Scalar c) :
     apply rules isSpace (cps.flatMap encode16) = PV.Spec.Flatten.flatten rules isSpace cps := by
-  sorry
+  unfold apply PV.Spec.Flatten.flatten
+  have h := PV.Lemmas.Flatten.applyLoop_eq rules hb isSpace (cps.length + 1)
+    ((cps.flatMap encode16).length + 1) [] cps [] hs (Nat.le_succ _) (Nat.le_succ _)
+  simpa using h
 
 /-- characters no rule targets pass through unchanged. -/
 theorem no_rule_passthrough (rules : List Start) (hb : PV.Spec.Flatten.bmpOnly rules = true) (isSpace : Nat → Bool)
     (cps : List Nat) (hs : ∀ c ∈ cps, Scalar c) (hn : ∀ c ∈ cps, ∀ st ∈ rules, st.c ≠ c) :
     apply rules isSpace (cps.flatMap encode16) = cps.flatMap encode16 := by
-  sorry
+  rw [apply_eq_spec rules hb isSpace cps hs]
+  exact PV.Lemmas.Flatten.flattenSpec_no_rule rules isSpace _ cps (Nat.le_succ _) hn
 
 /-- the generated tables of all five languages satisfy the BMP hypothesis. -/
 theorem generated_tables_bmp : ∀ lt ∈ PV.Gen.flattenLangs, PV.Spec.Flatten.bmpOnly lt.2 = true := by
-  sorry
+  intro lt h
+  simp only [PV.Gen.flattenLangs, List.mem_cons, List.not_mem_nil, or_false] at h
+  rcases h with h | h | h | h | h <;> subst h <;> decide +kernel
 
 -- non-vacuity: x 😀 y through the English table; `' s` at a right boundary; ``…`` quotes
 example : apply PV.Gen.flatten_en (fun c => c == 32) [120, 0xD83D, 0xDE00, 121] = [120, 0xD83D, 0xDE00, 121] := by
